@@ -3,13 +3,14 @@
 Every table of six product families is built with the real ``PPTable`` (records as tuples, ``fields=``,
 a ``fmt`` string for columns / widths / break-by / modifiers, ``limits=`` or the fmt's limits section,
 ``header=``, ``footer=``, ``fields_titles=``, ``fields_types=`` with a fresh ``PPEnumFieldType``),
-printed without colors as a whole and line by line (fresh table object), and read back with the
+printed without colors as a whole and line by line (fresh table object; lines rendered when yielded and
+again after the iterator is exhausted), and read back with the
 structural reader ``models/table_reader.py`` (column positions from the '+' marks only).
 
   F1 one column      : record sequences over the value alphabet x every width spec (min,max in {0,1,2,3,4,10},
                        min <= max, fixed and ranged, and unspecified) x title lengths
   F2 two / three col : record sequences over value tuples x width spec tuples x column selections
-                       (in order, swapped, the same field twice)
+                       (in order, swapped, the same field twice, one column removed through skip_columns)
   F3 limits x breaks : all sequences of break-by key values up to the record bound x break-by column
                        configurations (none / one / two / not first) x all limits of the limit alphabet
                        (via ``limits=`` and via the fmt) x width configurations (default, 0-1, 0, fixed)
@@ -18,6 +19,9 @@ structural reader ``models/table_reader.py`` (column positions from the '+' mark
   F5 header / footer : header and footer absent, short, longer than the table, containing border characters x
                        single / multi-line titles of different line counts, non-string title items x widths
   F6 bigger          : 4..N records under limits with break lines and an enum column together
+  F7 two iterators   : all ordered pairs of a set of small tables with service lines (and one table object twice);
+                       the first line iterator is advanced k lines (every k), then the second is started and
+                       exhausted, then the first is finished; also strictly alternating. Each table is judged alone.
 
 Oracle (from the statement): one width for all lines; borders identical; '|' under every '+' in title and
 record rows; every column width inside [min, max]; every title / record cell is the expected text padded
@@ -46,10 +50,10 @@ LEVEL_NOTE = ("Small-scope: <= 3 columns, <= 7 records, widths <= 12 unless unsp
               "enums with a MISSING entry, custom field types, value paths into nested records and colored output "
               "are not covered (C10/C13 cover colors and the format life-cycle). Trusted: the reader and the "
               "expected-text model in this file.")
-RULE = ("case = one table description (fields, records, columns with widths/break-by/modifier, limits, header, footer, "
+RULE = ("case = one table description (F7: two descriptions and a schedule of their line iterators) (fields, records, columns with widths/break-by/modifier, limits, header, footer, "
         "titles, enum); distinct by construction of the product families. Non-trivial: at least one of: a truncated "
         "cell, a zero-width column, a break line, applied limits, an enum column, a header/footer longer than the table, "
-        "a multi-line title (all measured on the case / the parsed output).")
+        "a multi-line title (all derived from the case by the reference model).")
 ASSUMPTIONS = [
     "at least one column (a table without columns has nothing to align)",
     "min <= max, widths and limits non-negative; None limits mean 'no limit'",
@@ -65,17 +69,22 @@ ASSUMPTIONS = [
     "when the body has exactly n+m+1 lines both 'show all' and 'skip one' satisfy the statement; both are accepted",
     "the default footer ('Total N records') is checked for width only",
 ]
+# every required feature is derived from the case by the reference model, never from the output of the
+# implementation (so a broken implementation cannot make the run look vacuous); what was *observed* in the
+# parsed output is counted under "obs:..." and is informational
 REQUIRED_FEATURES = [
-    "cols:1", "cols:2", "cols:3", "cols:same-field-twice", "records:0", "records:5+",
+    "cols:1", "cols:2", "cols:3", "cols:same-field-twice", "cols:removed-by-skip_columns", "records:0", "records:5+",
     "width:zero", "width:min=max", "width:ranged", "width:unspecified",
-    "cell:padded", "cell:exact", "cell:truncated", "cell:truncated-width<3", "value:border-chars", "value:empty",
-    "value:none", "value:number",
-    "break-by:one", "break-by:two", "body:break-line", "limits:none", "limits:applied", "limits:fit",
-    "limits:n+m+1", "limits:zero-zero", "limits:via-fmt", "limits:break-line-counted", "skipped:number-read",
-    "skipped:number-truncated",
+    "cell:longer-than-max", "cell:longer-than-max<3", "cell:shorter-than-min", "value:border-chars", "value:empty",
+    "value:none", "value:number", "title:longer-than-max",
+    "break-by:one", "break-by:two", "body:break-line", "limits:none", "limits:must-apply", "limits:fit",
+    "limits:n+m+1", "limits:zero-zero", "limits:via-fmt", "limits:break-line-in-shown-part",
+    "skipped:number-must-fit", "skipped:number-cannot-fit",
     "enum:full", "enum:val", "enum:name", "enum:default-modifier", "enum:unknown-value", "enum:none-value",
-    "enum:truncated", "header:longer-than-table", "header:short", "footer:longer-than-table", "footer:default",
-    "titles:multi-line", "titles:uneven-line-counts", "title:truncated",
+    "enum:longer-than-max", "header:longer-than-table", "header:fits", "footer:longer-than-table", "footer:fits",
+    "footer:default", "titles:multi-line", "titles:uneven-line-counts",
+    "interleave:one-preemption", "interleave:zip", "interleave:same-table-object",
+    "interleave:second-started-while-first-suspended",
 ]
 
 BREAK, SKIP = "break", "skip"
@@ -109,6 +118,7 @@ def make_fmt(case):
         if w is not None:
             s += ":" + "-".join(str(x) for x in w)
         parts.append(s)
+    parts.extend(case.get("skip") or [])          # columns removed again through skip_columns=
     fmt = ",".join(parts)
     lim = case.get("limits")
     if lim is not None and case.get("lim_via") == "fmt":
@@ -120,6 +130,8 @@ def make_table(case):
     kw = {"fields": list(case["fields"]), "fmt": make_fmt(case)}
     if case.get("limits") is not None and case.get("lim_via") != "fmt":
         kw["limits"] = tuple(case["limits"])
+    if case.get("skip"):
+        kw["skip_columns"] = list(case["skip"])
     if case.get("header") is not None:
         kw["header"] = case["header"]
     if case.get("footer") is not None:
@@ -239,9 +251,9 @@ def verify(case, text, feats=None):
     if header:
         row = rows.pop(0)
         if tr.fits(row.inner, header):
-            feats.add("header:short")
+            feats.add("obs:header:short")
         elif tr.is_truncation(row.inner, header):
-            feats.add("header:longer-than-table")
+            feats.add("obs:header:longer-than-table")
         else:
             return ("header-text", "header line is neither the padded header nor a prefix ending in dots",
                     row.raw, header)
@@ -252,9 +264,9 @@ def verify(case, text, feats=None):
             want = tls[ci][li] if li < len(tls[ci]) else ""
             p = _cell_problem(cell, [want], t.col_widths[ci], bounds_[ci][1])
             if p == "T":
-                feats.add("title:truncated")
+                feats.add("obs:title:truncated")
             elif p is not None:
-                return (f"cell:title:{p}", f"title cell (line {li}, column {ci}) does not show {want!r}",
+                return (f"cell:title:{p}", f"title cell (line {li}, column {ci}) {cell!r} for {want!r}: {p}",
                         [t.lines[0], row.raw], want)
 
     # ---- body
@@ -274,14 +286,14 @@ def verify(case, text, feats=None):
                     problem = ("body:break-line-expected", f"line {row.line_no}: expected a blank break line",
                                row.raw, "blank line")
                     break
-                pf.add("body:break-line")
+                pf.add("obs:body:break-line")
             elif item == SKIP:
                 shown = sum(1 for x in plan if isinstance(x, int))
                 num = tr.skipped_number(row.inner)
                 if num is None:
-                    pf.add("skipped:number-truncated")
+                    pf.add("obs:skipped:number-truncated")
                 else:
-                    pf.add("skipped:number-read")
+                    pf.add("obs:skipped:number-read")
                     if num + shown != total:
                         problem = ("skipped-count", f"{num} announced as skipped + {shown} shown != {total} records",
                                    row.raw, total - shown)
@@ -298,16 +310,16 @@ def verify(case, text, feats=None):
                     p = _cell_problem(cell, cands, t.col_widths[ci], bounds_[ci][1])
                     ctype = _coltype(case, col)
                     if p == "T":
-                        pf.add("cell:truncated")
+                        pf.add("obs:cell:truncated")
                         if t.col_widths[ci] < 3:
-                            pf.add("cell:truncated-width<3")
+                            pf.add("obs:cell:truncated-width<3")
                         if ctype != "plain":
-                            pf.add("enum:truncated")
+                            pf.add("obs:enum:truncated")
                     elif p is None:
-                        pf.add("cell:exact" if len(cands[0]) == len(cell) else "cell:padded")
+                        pf.add("obs:cell:exact" if len(cands[0]) == len(cell) else "obs:cell:padded")
                     else:
                         problem = (f"cell:record:{ctype}:{p}",
-                                   f"record {item}, column {ci}: cell {cell!r} does not show {cands[0]!r}",
+                                   f"record {item}, column {ci}: cell {cell!r} for {cands[0]!r}: {p}",
                                    [t.lines[0], row.raw], cands[0])
                         break
                 if problem:
@@ -329,21 +341,21 @@ def verify(case, text, feats=None):
             return ("body:limits-applied-needlessly", f"{len(t.body)} body lines, expected all {len(full)}", text, lens)
         return ("body:line-count", f"{len(t.body)} body lines, expected {lens}", text, lens)
     if SKIP in matched:
-        feats.add("limits:applied")
+        feats.add("obs:limits:applied")
         shown_lines = [x for x in matched if x != SKIP]
         if BREAK in shown_lines:
-            feats.add("limits:break-line-counted")
+            feats.add("obs:limits:break-line-counted")
 
     # ---- footer
     footer = case.get("footer")
     if len(t.foot) != 1:
         return ("footer-lines", f"{len(t.foot)} lines after the last border, expected 1", text, 1)
     if footer is None:
-        feats.add("footer:default")
+        feats.add("obs:footer:default")
     elif tr.fits(t.foot[0], footer):
-        feats.add("footer:short")
+        feats.add("obs:footer:short")
     elif tr.is_truncation(t.foot[0], footer):
-        feats.add("footer:longer-than-table")
+        feats.add("obs:footer:longer-than-table")
     else:
         return ("footer-text", "footer line is neither the padded footer nor a prefix ending in dots",
                 t.foot[0], footer)
@@ -356,6 +368,8 @@ def case_features(case, feats):
     fs = [c["f"] for c in cols]
     if len(set(fs)) < len(fs):
         feats.add("cols:same-field-twice")
+    if case.get("skip"):
+        feats.add("cols:removed-by-skip_columns")
     n = len(case["records"])
     feats.add("records:0" if n == 0 else ("records:5+" if n >= 5 else "records:1-4"))
     for c in cols:
@@ -391,6 +405,8 @@ def case_features(case, feats):
                 feats.add("value:number")
     lim = case.get("limits")
     plans, full = body_plans(case)
+    if BREAK in full:
+        feats.add("body:break-line")
     if lim is None or lim[0] is None or lim[1] is None:
         feats.add("limits:none")
     else:
@@ -402,6 +418,47 @@ def case_features(case, feats):
             feats.add("limits:n+m+1")
         elif plans[0] == full:
             feats.add("limits:fit")
+        else:
+            feats.add("limits:must-apply")
+            if BREAK in plans[0]:
+                feats.add("limits:break-line-in-shown-part")
+            # can the "skipped" line show its number? interior width is between these two
+            lo_in = sum(col_bounds(c)[0] for c in cols) + len(cols) - 1
+            hi_in = sum(col_bounds(c)[1] for c in cols) + len(cols) - 1
+            ndig = len(str(len(case["records"]) - sum(1 for x in plans[0] if isinstance(x, int))))
+            if hi_in < 4 + ndig + 1:
+                feats.add("skipped:number-cannot-fit")
+            if lo_in >= 4 + ndig + 1 + 3:
+                feats.add("skipped:number-must-fit")
+    visible = sorted({x for p in plans for x in p if isinstance(x, int)})
+    fidx = {f: i for i, f in enumerate(case["fields"])}
+    for c in cols:
+        lo, hi = col_bounds(c)
+        for i in visible:
+            d = desired_texts(case, c, case["records"][i][fidx[c["f"]]])[0]
+            if len(d) > hi:
+                feats.add("cell:longer-than-max")
+                if hi < 3:
+                    feats.add("cell:longer-than-max<3")
+                if (case.get("enums") or {}).get(c["f"]):
+                    feats.add("enum:longer-than-max")
+            elif len(d) < lo:
+                feats.add("cell:shorter-than-min")
+        if any(len(x) > hi for x in title_lines(case, c["f"])):
+            feats.add("title:longer-than-max")
+    lo_in = sum(col_bounds(c)[0] for c in cols) + len(cols) - 1
+    hi_in = sum(col_bounds(c)[1] for c in cols) + len(cols) - 1
+    if case.get("header"):
+        if len(case["header"]) > hi_in:
+            feats.add("header:longer-than-table")
+        elif len(case["header"]) <= lo_in:
+            feats.add("header:fits")
+    if case.get("footer") is None:
+        feats.add("footer:default")
+    elif len(case["footer"]) > hi_in + 2:
+        feats.add("footer:longer-than-table")
+    elif len(case["footer"]) <= lo_in + 2:
+        feats.add("footer:fits")
     tls = [len(title_lines(case, c["f"])) for c in cols]
     if max(tls) > 1:
         feats.add("titles:multi-line")
@@ -409,17 +466,28 @@ def case_features(case, feats):
             feats.add("titles:uneven-line-counts")
 
 
-NONTRIVIAL = {"cell:truncated", "width:zero", "body:break-line", "limits:applied", "enum:full", "enum:val",
-              "enum:name", "enum:default-modifier", "header:longer-than-table", "footer:longer-than-table",
-              "titles:multi-line", "title:truncated"}
+NONTRIVIAL = {"interleave:second-started-while-first-suspended", "interleave:zip", "cell:longer-than-max", "width:zero", "body:break-line", "limits:must-apply", "limits:n+m+1",
+              "enum:full", "enum:val", "enum:name", "enum:default-modifier", "header:longer-than-table",
+              "footer:longer-than-table", "titles:multi-line", "title:longer-than-max"}
+
+
+def _render_lines(table):
+    """Consume the line iterator: -> (lines rendered when yielded, the kept line objects rendered afterwards)."""
+    kept, now = [], []
+    for ln in table.ch_text(no_color=True):
+        now.append(ln.plain_text())
+        kept.append(ln)
+    return now, [ln.plain_text() for ln in kept]
 
 
 def check_case(case, acc):
+    if "interleave" in case:
+        return check_interleaved(case, acc)
     feats = set()
     acc.trans(2)
     try:
         text = make_table(case).ch_text(no_color=True).plain_text()
-        lines = [ln.plain_text() for ln in make_table(case).ch_text(no_color=True)]
+        lines, later = _render_lines(make_table(case))
     except Exception as e:  # noqa
         return (f"raises:{type(e).__name__}", f"printing the table raised {type(e).__name__}: {e}",
                 repr(e), "a table"), feats, None
@@ -430,16 +498,78 @@ def check_case(case, acc):
             v2 = verify(case, joined, set())
             if v2 is not None:
                 v = ("by-line:" + v2[0],) + v2[1:]
+    if v is None and later != lines:
+        v2 = verify(case, "\n".join(later), set())
+        if v2 is not None:
+            v = ("kept-lines:" + v2[0],) + v2[1:]
     return v, feats, text
+
+
+def ref_line_count(case):
+    """Number of lines of the printed table according to the reference model (the larger, if two are accepted)."""
+    plans, _ = body_plans(case)
+    n_titles = max(len(title_lines(case, c["f"])) for c in case["cols"])
+    return 3 + (1 if case.get("header") else 0) + n_titles + max(len(p) for p in plans) + 1
+
+
+def check_interleaved(case, acc):
+    """Two line iterators alive at the same time: the first is advanced k lines, then the second is started
+    and exhausted, then the first is finished ('zip': strictly alternating). Each table must still satisfy
+    the property on its own."""
+    spec = case["interleave"]
+    c1, c2, k = spec["t1"], spec["t2"], spec["k"]
+    feats = set()
+    acc.trans(2)
+    try:
+        t1 = make_table(c1)
+        t2 = t1 if spec.get("same_object") else make_table(c2)
+        g1, g2 = iter(t1.ch_text(no_color=True)), iter(t2.ch_text(no_color=True))
+        l1, l2 = [], []
+        if k == "zip":
+            live = [(g1, l1), (g2, l2)]
+            while live:
+                for g, out in list(live):
+                    try:
+                        out.append(next(g))
+                    except StopIteration:
+                        live.remove((g, out))
+        else:
+            for _ in range(k):
+                try:
+                    l1.append(next(g1))
+                except StopIteration:
+                    break
+            l2.extend(g2)
+            l1.extend(g1)
+        text1 = "\n".join(x.plain_text() for x in l1)
+        text2 = "\n".join(x.plain_text() for x in l2)
+    except Exception as e:  # noqa
+        return (f"interleaved:raises:{type(e).__name__}", f"interleaved printing raised {type(e).__name__}: {e}",
+                repr(e), "two tables"), feats, None
+    for which, c, text in (("first", c1, text1), ("second", c2, text2)):
+        v = verify(c, text, feats if which == "first" else set())
+        if v is not None:
+            return (f"interleaved:{which}:" + v[0], f"{which} table of an interleaved pair: " + v[1], v[2], v[3]), \
+                feats, text1
+    return None, feats, text1
 
 
 def _one(acc, case, n):
     v, feats, text = check_case(case, acc)
-    case_features(case, feats)
+    if "interleave" in case:
+        spec = case["interleave"]
+        case_features(spec["t1"], feats)
+        feats.add("interleave:zip" if spec["k"] == "zip" else "interleave:one-preemption")
+        if spec.get("same_object"):
+            feats.add("interleave:same-table-object")
+        if 0 < (spec["k"] if spec["k"] != "zip" else 0) < ref_line_count(spec["t1"]):
+            feats.add("interleave:second-started-while-first-suspended")
+    else:
+        case_features(case, feats)
     if v is None:
-        body = "all" if "limits:applied" not in feats else "limited"
-        trunc = "trunc" if "cell:truncated" in feats else "full"
-        outcome = f"ok:{body}:{trunc}:{'brk' if 'body:break-line' in feats else 'nobrk'}"
+        body = "all" if "obs:limits:applied" not in feats else "limited"
+        trunc = "trunc" if "obs:cell:truncated" in feats else "full"
+        outcome = f"ok:{body}:{trunc}:{'brk' if 'obs:body:break-line' in feats else 'nobrk'}"
     else:
         outcome = v[0]
     acc.case(nontrivial=bool(feats & NONTRIVIAL), features=sorted(feats), outcome=outcome)
@@ -496,6 +626,9 @@ def fam_F2(tier):
     for seq, wa, wb, sel in itertools.product(list(_seqs(pairs, 0, 2)), W2, W2, sels):
         yield {"fields": ["a", "b"], "records": [list(p) for p in seq],
                "cols": [{"f": sel[0], "w": wa}, {"f": sel[1], "w": wb}]}
+    for seq, wa, keep in itertools.product(list(_seqs(pairs, 0, 2)), W2, "ab"):
+        yield {"fields": ["a", "b"], "records": [list(p) for p in seq],
+               "cols": [{"f": keep, "w": wa}], "skip": ["b" if keep == "a" else "a"]}
     v3 = [1, "abcde", "a|b", ""]
     triples = list(itertools.product(v3 if tier != "thorough" else v3[:3], repeat=3))
     for seq, ws in itertools.product(list(_seqs(triples, 0, 1 if tier != "thorough" else 2)),
@@ -577,6 +710,7 @@ TITLES = [
     {"a": ["t", 555], "b": "B"},
     {"a": ["x", None, 7.5], "b": ["long title line", "s"]},
     {"a": "a very long title of a", "b": "|+|"},
+    {"a": "", "b": " \n-"},
 ]
 
 
@@ -610,9 +744,38 @@ def fam_F6(tier):
                    "enums": {"st": "E1"}, "limits": lim, "header": "H"}
 
 
-FAMILIES = {"F1": fam_F1, "F2": fam_F2, "F3": fam_F3, "F4": fam_F4, "F5": fam_F5, "F6": fam_F6}
-PARTS = {"quick": {"F1": 12, "F2": 24, "F3": 24, "F4": 16, "F5": 12, "F6": 12},
-         "thorough": {"F1": 32, "F2": 64, "F3": 64, "F4": 48, "F5": 32, "F6": 32}}
+def _f7_tables(tier):
+    seqs = [[1, 2, 2], [1, 1, 2], [1, 2, 1, 1]]
+    lims = [None, [1, 0], [0, 1], [1, 1]]
+    out = []
+    for seq, lim, wname in itertools.product(seqs, lims, ["default", "fixed", "zero"]):
+        out.append({"fields": ["g", "h", "id"], "records": [[g, "x", 101 + i] for i, g in enumerate(seq)],
+                    "cols": [{"f": f, "bb": b, "w": WCFG[wname][f]} for f, b in BBCFG["g"]], "limits": lim})
+    if tier == "thorough":
+        for seq, lim, mod in itertools.product([[7, 100, None], [55, 55, 7, 7]], [None, [1, 1]], ["val", "name"]):
+            out.append({"fields": ["id", "st"], "records": [[i + 1, v] for i, v in enumerate(seq)],
+                        "cols": [{"f": "st", "w": None, "mod": mod, "bb": 1}, {"f": "st", "w": [2, 5], "mod": mod},
+                                 {"f": "id", "w": None}],
+                        "enums": {"st": "E1"}, "limits": lim, "header": "Head"})
+    return out
+
+
+def fam_F7(tier):
+    """Pairs of tables whose line iterators are alive at the same time (every one-preemption schedule + zip)."""
+    tables = _f7_tables(tier)
+    for i, c1 in enumerate(tables):
+        n1 = ref_line_count(c1)
+        for j, c2 in enumerate(tables):
+            ks = list(range(0, n1 + 1)) + ["zip"]
+            for k in ks:
+                yield {"interleave": {"t1": c1, "t2": c2, "k": k}}
+                if i == j:
+                    yield {"interleave": {"t1": c1, "t2": c2, "k": k, "same_object": 1}}
+
+
+FAMILIES = {"F7": fam_F7, "F1": fam_F1, "F2": fam_F2, "F3": fam_F3, "F4": fam_F4, "F5": fam_F5, "F6": fam_F6}
+PARTS = {"quick": {"F7": 8, "F1": 12, "F2": 24, "F3": 24, "F4": 16, "F5": 12, "F6": 12},
+         "thorough": {"F7": 16, "F1": 32, "F2": 64, "F3": 64, "F4": 48, "F5": 32, "F6": 32}}
 
 
 def bounds(tier):
@@ -620,7 +783,7 @@ def bounds(tier):
     return {
         "F1": {"values": V_FULL, "records": "<= 3 over all values, 4 over core" if th else "<= 2 over all values, 3 over core",
                "core_values": V_CORE, "width_specs": len(W_ALL), "titles": ["c", "title", "a long title"]},
-        "F2": {"two_col_records": "<= 2", "two_col_widths": W2, "selections": ["a,b", "b,a", "a,a"],
+        "F2": {"two_col_records": "<= 2", "two_col_widths": W2, "selections": ["a,b", "b,a", "a,a", "a,b skip b", "a,b skip a"],
                "three_col_records": "<= 2" if th else "<= 1", "three_col_widths": W3},
         "F3": {"records_one_key": 7 if th else 6, "records_two_keys": 5 if th else 4,
                "limits": LIMS_T if th else LIMS_Q, "limits_via_fmt": LIMS_FMT,
@@ -630,6 +793,8 @@ def bounds(tier):
                "modifiers": [None, "full", "val", "name"]},
         "F5": {"headers": HEADERS, "footers": FOOTERS, "titles": len(TITLES)},
         "F6": {"records": [4, 7 if th else 6]},
+        "F7": {"tables": len(_f7_tables(tier)), "pairs": "all ordered pairs + the same table object twice",
+               "schedules": "first iterator advanced k = 0..all lines, second run to the end, first finished; zip"},
     }
 
 
@@ -694,7 +859,7 @@ def selftest():
           "cols": [{"f": "grade", "w": [0], "bb": 1}, {"f": "name"}]}
     zt = make_table(zw).ch_text(no_color=True).plain_text()
     f = set()
-    assert verify(zw, zt, f) is None and "body:break-line" in f and zt.split("\n")[0] == "++------+"
+    assert verify(zw, zt, f) is None and "obs:body:break-line" in f and zt.split("\n")[0] == "++------+"
     assert verify(zw, zt.replace("|       |\n", ""))[0] == "body:line-count"
     en = {"fields": ["id", "name", "status"], "records": [[1, "user 01", 7], [2, "user 02", 100], [3, "u", 20]],
           "cols": [{"f": "id"}, {"f": "name"}, {"f": "status"}], "enums": {"status": "E1"}}
